@@ -5,12 +5,17 @@ TLC: exhaustive check that for both state encodings and every per-block index fa
 database is a function of the current chain only (Canon, IdxCanon: Store ; Revert = identity, a
 node that followed fork A, reverted and followed fork B equals a node that followed B directly),
 that no history log survives a revert (NoOrphanLogs), that lookups see exactly the current chain
-(IdxSound) and that RevertHead never fails for a storable block (RevertNeverFails; verified on
+(IdxSound), that a process restart anywhere is a no-op on the database (RRestartIsNoOp) and that
+the lazily initialised running event filter covers exactly the current chain whatever was stored,
+reverted or restarted before (FilterCoversChain) and that RevertHead never fails for a storable block (RevertNeverFails; verified on
 the repaired model FixH4 = TRUE, the faithful model FixH4 = FALSE must exhibit H4).
 Binding: TLC-simulated behaviours with forks are replayed into real blockchain.Blockchain nodes on
 both state backends: RevertHead must succeed, the database dump after Store ; Revert must equal the
 dump before the store, and after every revert / on every fork the node must equal - dump and full
-reader / state / event sweep - a twin node that stored the current chain directly.
+reader / state / event sweep - a twin node that stored the current chain directly. The node under
+test is restarted (new Blockchain object on the same store, with or without a written filter
+snapshot) at random points, in particular right before RevertHead / Store; after every step all
+event queries (unfiltered, by emitter, by key, paged) must equal a naive scan of the chain's receipts.
 """
 import json
 import vlib
@@ -19,10 +24,11 @@ from C03 import behaviours, h4_fixed, selftest, H4_KEY
 
 def corrupt_idx(b):
     """Claim one more block than the chain has."""
-    st = b["steps"][-1]
-    if st["res"] != "ok":
+    while b["steps"] and b["steps"][-1]["a"]["name"] == "Restart":
+        b["steps"].pop()          # nothing is observed right after a restart
+    if not b["steps"] or b["steps"][-1]["res"] != "ok":
         return False
-    st["idx"]["height"] += 1
+    b["steps"][-1]["idx"]["height"] += 1
     return True
 
 
@@ -44,6 +50,12 @@ def run(ctx):
                       label="faithful model FixH4=FALSE (violation expected)")
     if r["violated"] != "RevertNeverFails":
         raise vlib.Broken("the faithful model (FixH4 = FALSE) should violate RevertNeverFails, got %s" % r["violated"])
+    # model sensitivity to Restart: a running event filter rolled back after the revert's commit
+    # must be caught (a restart right before RevertHead then clears a canonical block)
+    r = ctx.tlc_check("chain", "Revert.tla", "Revert_lazyfilter.cfg", timeout=900, expect_violation=True,
+                      label="filter rolled back after commit (violation expected)")
+    if r["violated"] != "FilterCoversChain":
+        raise vlib.Broken("Revert_lazyfilter.cfg should violate FilterCoversChain, got %s" % r["violated"])
     if thorough:
         r = ctx.tlc_check("chain", "Revert.tla", "Revert_thorough.cfg", timeout=3000, coverage=True)
         vlib.require_actions_covered(r)
@@ -64,6 +76,7 @@ def run(ctx):
         "a class is declared at most once per chain and every class definition a block delivers is listed in its declared classes",
         "chains stay inside one bloom-filter window (8192 blocks); the running event filter is compared through event queries",
         "databases compared as complete key/value dumps of db/memory; pebble equivalence is C15",
+        "after a Restart step nothing is read through the new process before the next step (so that step is its first operation)",
     ]
     return ctx.finish(
         "model_checking",
